@@ -79,18 +79,21 @@ Qed.
 (* no FMS: the constructor raises exactly when the layout has one of the faults *)
 Theorem C14_no_fms_raises_iff : forall p,
   (exists e c, discover false p = Raised e c) <->
-  (p = PkgInitFails \/ import_fault p \/ ctor_fault p \/ duplicate_names p \/ several_defaults p).
+  (package_fault p \/ import_fault p \/ ctor_fault p \/ duplicate_names p \/ several_defaults p).
 Proof. exact no_fms_raises_iff. Qed.
 
 (* a missing package is not a fault *)
 Theorem C14_missing_package_tolerated : forall fms, exists r, discover fms PkgMissing = Built r.
 Proof. exact discover_missing_built. Qed.
 
-(* FMS attached: never raises (unless importing the package itself fails), and
-   every healthy mode is in the map, offered by the chooser and selectable,
-   under its MODE_NAME or -- a duplicate -- under "<class>_<file>". *)
+(* FMS attached: never raises, whatever the layout (a package whose own import
+   fails included) ... *)
+Theorem C14_fms_never_raises : forall p, exists r, discover true p = Built r.
+Proof. exact fms_never_raises. Qed.
+
+(* ... and every healthy mode is in the map, offered by the chooser and
+   selectable, under its MODE_NAME or -- a duplicate -- under "<class>_<file>". *)
 Theorem C14_fms_tolerates : forall p,
-  p <> PkgInitFails ->
   exists r, discover true p = Built r /\
     (no_key_clash p ->
      forall i, In i (needed p) -> healthy i = true ->
@@ -174,11 +177,15 @@ Theorem C14_timed_period_exact : forall r st s now nows,
    Some (mkL None (Some now) (robot_exit st))).
 Proof. exact timed_period_exact. Qed.
 
-(* ---- where the code is narrower than the wording ------------------- *)
+(* ---- the package-import policy; where the code is narrower than the wording (open findings) -- *)
 
-(* a failing import of the package itself is raised even with the FMS attached *)
-Theorem C14_fms_package_failure_raises : discover true PkgInitFails = Raised ErrPackage [].
-Proof. exact fms_package_failure_raises. Qed.
+(* [repaired, /repo 87f7d89] a failing import of the package itself: raised
+   without FMS, tolerated with it (only "None" is offered) *)
+Theorem C14_package_failure_policy :
+  discover false PkgInitFails = Raised ErrPackage [] /\
+  exists r, discover true PkgInitFails = Built r /\
+    modes r = [] /\ ctor_calls r = [] /\ option_names r = ["None"] /\ preselection r = "None".
+Proof. exact package_failure_policy. Qed.
 
 (* without [no_key_clash] a healthy mode can be lost under FMS *)
 Theorem C14_fms_key_clash_refuted :
@@ -272,6 +279,7 @@ Print Assumptions C14_keyed_by_mode_name.
 Print Assumptions C14_offers_none_and_default.
 Print Assumptions C14_no_fms_raises_iff.
 Print Assumptions C14_missing_package_tolerated.
+Print Assumptions C14_fms_never_raises.
 Print Assumptions C14_fms_tolerates.
 Print Assumptions C14_fms_modes_are_healthy.
 Print Assumptions C14_selection_dashboard.
@@ -281,7 +289,7 @@ Print Assumptions C14_only_selected_modes.
 Print Assumptions C14_nothing_after_disable.
 Print Assumptions C14_run_period_exact.
 Print Assumptions C14_timed_period_exact.
-Print Assumptions C14_fms_package_failure_raises.
+Print Assumptions C14_package_failure_policy.
 Print Assumptions C14_fms_key_clash_refuted.
 Print Assumptions C14_mode_called_None_refuted.
 Print Assumptions C14_ill_formed_refuted.
